@@ -332,6 +332,149 @@ def in_clone_assign_class(descr) -> bool:
     return False
 
 
+# ---- element / owner classes with a truth value, without a hash, with an iteration protocol (round 7, defects 1-3) -----------------
+from dataclasses import dataclass as _dc, field as _fld
+from typing_extensions import List as _TList, Set as _TSet
+from krrood.entity_query_language.predicate import Symbol as _Symbol
+from krrood.ontomatic.property_descriptor.property_descriptor import PropertyDescriptor as _PD
+
+
+@_dc(eq=False)
+class QItem(_Symbol):
+    """falsy when its number is even"""
+    name: str
+
+    def __bool__(self):
+        return int(self.name[1:]) % 2 == 1
+
+
+@_dc
+class QPlain(_Symbol):
+    """an ordinary eq=True dataclass: compares by value, has no hash"""
+    name: str
+
+
+@_dc(eq=False)
+class QTeam(_Symbol):
+    """its length and its iteration are those of its items: an empty team is falsy, and it is iterable"""
+    name: str
+    items: _TList[QItem] = _fld(default_factory=list)
+
+    def __len__(self):
+        return len(self.items)
+
+    def __iter__(self):
+        return iter(self.items)
+
+
+@_dc(eq=False)
+class QLeague(_Symbol):
+    name: str
+    teams: _TList[QTeam] = _fld(default_factory=list)
+    plains: _TList[QPlain] = _fld(default_factory=list)
+
+
+@_dc
+class QHasItem(_PD): ...
+
+
+@_dc
+class QHasPlain(_PD): ...
+
+
+@_dc
+class QHasTeam(_PD): ...
+
+
+QTeam.items = QHasItem(QTeam, "items")
+QLeague.plains = QHasPlain(QLeague, "plains")
+QLeague.teams = QHasTeam(QLeague, "teams")
+
+
+def run_quirk(descr) -> Dict[str, Any]:
+    """every element that is in the field afterwards must have its relation: [names in the field], [names recorded], exception"""
+    SymbolGraph().clear()
+    SymbolGraph()
+    which = descr["which"]
+    exc = None
+    owner, name = None, None
+    try:
+        if which in ("falsy_owner", "falsy_element"):
+            owner, name = QTeam("t"), "items"
+            for n in descr["elems"]:
+                owner.items.append(QItem(n))
+        elif which == "unhashable":
+            owner, name = QLeague("L"), "plains"
+            owner.plains.append(QPlain("a"))
+            owner.plains.extend([QPlain("b")])
+            owner.plains = list(owner.plains) + [QPlain("c")]
+        elif which == "iterable_element":
+            owner, name = QLeague("L"), "teams"
+            full = QTeam("full")
+            full.items.append(QItem("o1"))
+            owner.teams.append(full)
+            owner.teams.append(QTeam("empty"))
+        elif which in ("alias_iadd", "alias_ior"):
+            fam = c15.families()["U"]
+            Company, Person = fam.classes[0], fam.classes[1]
+            if which == "alias_iadd":
+                owner, name = Person("p"), "member_of"
+                alias = owner.member_of
+                alias += [Company("c0"), Company("c1")]
+            else:
+                owner, name = Company("c"), "members"
+                alias = owner.members
+                alias |= {Person("p0")}
+    except Exception as e:  # noqa
+        exc = f"{type(e).__name__}: {str(e)[:80]}"
+    field_names = sorted(x.name for x in getattr(owner, name)) if owner is not None else []
+    rec = sorted(r.target.instance.name for r in SymbolGraph().relations()
+                 if r.source.instance is owner and r.wrapped_field.public_name == name and hasattr(r.target.instance, "name"))
+    return {"field": field_names, "recorded": rec, "exc": exc}
+
+
+def run_trans(descr) -> Dict[str, Any]:
+    """writes on a TRANSITIVE list field (Node.anc, inverse desc) of the FIRST symbol of a fresh graph, which already has incoming and
+    outgoing relations elsewhere: the final graph must be the C15 closure of all asserted facts"""
+    fam = c15.families()["N"]
+    SymbolGraph().clear()
+    SymbolGraph()
+    objs = [c15.Node(f"o{i}") for i in range(NELEM + 1)]      # the owner is object 0: node index 0 of the instance graph
+    owner = objs[0]
+    exc = 0
+    for s, t_ in descr["pre"]:
+        objs[s].anc.append(objs[t_])
+    try:
+        for op in descr["ops"]:
+            if op[0] == "append":
+                owner.anc.append(objs[op[1]])
+            elif op[0] == "extend":
+                owner.anc.extend([objs[i] for i in op[1]])
+            elif op[0] == "insert":
+                owner.anc.insert(op[1], objs[op[2]])
+            elif op[0] == "iadd":
+                aug("anc", "+=")(owner, [objs[i] for i in op[1]])
+            elif op[0] == "assign_first":
+                owner.anc = [objs[i] for i in op[1]]
+    except Exception as e:  # noqa
+        exc = [99, f"{type(e).__name__}: {str(e)[:100]}"]
+    ident = {id(o): i for i, o in enumerate(objs)}
+    fid = {(fam.classes[ci], nm): i for i, (ci, nm, _) in enumerate(fam.flds)}
+    E = sorted([ident.get(id(r.source.instance), -1), fid.get((r.wrapped_field.clazz.clazz, r.wrapped_field.public_name), -1),
+                ident.get(id(r.target.instance), -1)] for r in SymbolGraph().relations())
+    return {"E": E, "field": [ident[id(x)] for x in owner.anc], "exc": exc}
+
+
+def trans_facts(d):
+    fam = c15.families()["N"]
+    f = [i for i, (c, n, _) in enumerate(fam.flds) if c == 0 and n == "anc"][0]
+    facts = [(s, f, t_) for s, t_ in d["pre"]]
+    for op in d["ops"]:
+        xs = [op[1]] if op[0] == "append" else [op[2]] if op[0] == "insert" else op[1]
+        facts += [(0, f, x) for x in xs]
+    return f, facts
+
+
 def run_container_eq(descr) -> Dict[str, Any]:
     """K_container_eq: how two managed fields (and a managed field and a plain list) compare with == / !="""
     famk, oc, name, ec = SCN[descr["scn"]]
@@ -368,7 +511,7 @@ def run_setitem_grown(descr) -> Dict[str, Any]:
 
 
 def snippet(descr) -> str:
-    fn = {"churn": "run_churn", "clone": "run_clone", "ctor_alias": "run_ctor_alias", "container_eq": "run_container_eq", "setitem_grown": "run_setitem_grown"}.get(descr.get("kind"), "run_impl")
+    fn = {"quirk": "run_quirk", "trans": "run_trans", "churn": "run_churn", "clone": "run_clone", "ctor_alias": "run_ctor_alias", "container_eq": "run_container_eq", "setitem_grown": "run_setitem_grown"}.get(descr.get("kind"), "run_impl")
     return ("# PYTHONPATH=/repo/src:/repo:/verif PYTHONHASHSEED=0 /venv/bin/python\n"
             f"from harness import c16; print(c16.{fn}({descr!r}))")
 
@@ -448,7 +591,7 @@ def kterm(scn) -> str:
 
 
 def model_term(d) -> str:
-    if d.get("kind") in ("container_eq", "churn"):
+    if d.get("kind") in ("container_eq", "churn", "quirk", "trans"):
         return "SZ 0%Z"
     if d.get("kind") == "clone":
         w = {"p": "WP", "q": "WQ"}
@@ -514,6 +657,18 @@ def gen_cases(tier: str, seed: int) -> List[dict]:
         hows = ["assign", "clear_add"] + (["setitem"] if scn != "U-set" else [])
         rng.shuffle(hows)
         out.append({"kind": "churn", "scn": scn, "turns": 40, "how": hows, "salt": rng.randint(0, 2)})
+    # writes on a transitive field of the first symbol of a fresh graph, with relations already coming in and going out
+    for i in range(40 if tier == "quick" else 400):
+        pre = []
+        for _ in range(rng.randint(1, 4)):
+            s, t_ = rng.randint(1, NELEM), rng.randint(0, NELEM)
+            pre.append([s, t_])
+        ops = []
+        for _ in range(rng.randint(1, 3)):
+            k = rng.choice(["append", "extend", "insert", "iadd"])
+            xs = [rng.randint(0, NELEM) for _ in range(rng.randint(1, 2))]
+            ops.append([k, xs[0]] if k == "append" else [k, rng.randint(0, 3), xs[0]] if k == "insert" else [k, xs])
+        out.append({"kind": "trans", "pre": pre, "ops": ops})
     # writes through a shallow copy of the owner (shared container)
     for i in range(60 if tier == "quick" else 600):
         ops = []
@@ -558,6 +713,7 @@ def run(tier: str, seed: int, replay=None) -> int:
     rep.assume = [
         "the field is written by its owner with fresh arguments (lists, sets, generators) or with itself for assignment / += / |=; "
         "the generated histories write fields whose inferences go to OTHER fields (inverse, super-property); item assignment on a transitive field (inference writes back into the written list; C16-i, fixed) is replayed from its witnesses against the model setitem_then_infer",
+        "owners and elements are truthy, hashable and not iterable (the recording hook tests truthiness, builds a set of the value and iterates an iterable value: C16-k/l/m, replayed from witnesses); += / |= are written `owner.field += ...` (through another reference to the container they are the builtins: C16-n, refuted)",
         "reading a managed field with == is not modelled; K_container_eq (C16-h) is replayed from its witness",
         "a shallow copy of the owner shares the container (as plain Python does): writes through either owner's field must be recorded for that owner; plain assignment through the clone (C16-j, fixed e598545) is replayed as a regression witness and generated; the small model cstep is compared exactly",
         "elements of SET-valued fields are pairwise different under == (Python's own set semantics go by ==, the symbol graph by identity); twins are generated for list fields only",
@@ -566,7 +722,7 @@ def run(tier: str, seed: int, replay=None) -> int:
     ]
     rep.rule = ("random histories of 1-7 operations (assignment of a fresh list/set, self-assignment, += / |=, append, extend with a list, a generator or the field itself, "
                 "insert, item assignment and slice assignment (list or generator value) with indices in -4..5, add, update with 1 or 0-3 iterables) from random initial contents given to the constructor, "
-                "on Person.member_of, Company.members, Node.a, Node.b; assignment of LAZY views over the field itself (reversed, iter, chain, filtering generator); churn families (40 turns of fresh elements whose predecessors die, so addresses are reused) and clone families (writes through a copy.copy of the owner); elements drawn with repetition from 4 objects (in the Node.a scenario objects 2 and 3 are distinct Twin objects that compare and hash equal; recording is checked per object identity); "
+                "on Person.member_of, Company.members, Node.a, Node.b; assignment of LAZY views over the field itself (reversed, iter, chain, filtering generator); transitive families (writes on Node.anc of the first symbol of a fresh graph that already has incoming and outgoing relations; graph = C15 closure of all facts); churn families (40 turns of fresh elements whose predecessors die, so addresses are reused) and clone families (writes through a copy.copy of the owner); elements drawn with repetition from 4 objects (in the Node.a scenario objects 2 and 3 are distinct Twin objects that compare and hash equal; recording is checked per object identity); "
                 "non-trivial = at least one operation changes the contents; distinct = distinct (scenario, initial contents, history)")
     ok_spec, log = core.coq_make(["Base/Sx.vo", "Onto/ContainerSpec.vo", "Onto/ClosureSpec.vo"])
     rep.oblige("build:spec", ok_spec, "" if ok_spec else core.first_error(log))
@@ -590,6 +746,13 @@ def run(tier: str, seed: int, replay=None) -> int:
     try:
         specs = core.coq_values(PROP, HEADER_SPEC, [spec_term(d) for d in descrs], chunk=400, tag="spec")
         plain = [i for i, d in enumerate(descrs) if d.get("kind") is None]
+        trans_i = [i for i, d in enumerate(descrs) if d.get("kind") == "trans"]
+        trans_terms = []
+        for i in trans_i:
+            _, facts_ = trans_facts(descrs[i])
+            cd = {"fam": "N", "pop": [[0, None]] * (NELEM + 1), "ops": [["x", s, f, [t_]] for s, f, t_ in facts_]}
+            trans_terms.append(c15.spec_term(cd))
+        trans_closure = dict(zip(trans_i, core.coq_values(PROP, c15.header(False), trans_terms, chunk=400, tag="trans"))) if trans_i else {}
         closures = core.coq_values(PROP, c15.header(False), inference_terms([descrs[i] for i in plain], [impls[i] for i in plain]),
                                    chunk=400, tag="infer")
         closure_of = dict(zip(plain, closures))
@@ -613,11 +776,30 @@ def run(tier: str, seed: int, replay=None) -> int:
     kf_instances: Dict[str, int] = {}
     for i, (d, im, sp, mo) in enumerate(zip(descrs, impls, specs, models)):
         cname = corpus[i][0] if i < len(corpus) else None
-        scn = d["scn"]
+        scn = d.get("scn", "N-list")
         kind = kind_of(scn)
         problems: List[str] = []
         model_agrees = None
-        if d.get("kind") == "churn":
+        if d.get("kind") == "quirk":
+            rep.count(json.dumps(d), True)
+            unrec = sorted(set(im["field"]) - set(im["recorded"]))
+            if im["exc"]:
+                problems.append(f"the write raises {im['exc']}")
+            if unrec or set(im["recorded"]) - set(im["field"]):
+                problems.append(f"field {im['field']} but recorded {im['recorded']}: every element of the field (and only those) must have its relation")
+            model_agrees = (d.get("expect") == [im["field"], im["recorded"], im["exc"]])       # the recorded defect behaviour, exactly
+        elif d.get("kind") == "trans":
+            rep.count(json.dumps(d), True)
+            cl = trans_closure[i]
+            f_anc, facts_ = trans_facts(d)
+            if im["exc"]:
+                problems.append(f"exception {im['exc']}")
+            if cl == -1 or sorted(set(map(tuple, cl))) != sorted(map(tuple, im["E"])):
+                problems.append("writes on a transitive field: graph relations differ from the closure (C15 Spec) of the asserted facts")
+            elif not set(im["field"]) <= {t_ for s, f, t_ in map(tuple, cl) if s == 0 and f == f_anc}:
+                problems.append("the field holds an element without a relation")
+            model_agrees = False
+        elif d.get("kind") == "churn":
             rep.count(json.dumps(d), True)
             dist["churn_ids_reused"] = dist.get("churn_ids_reused", 0) + im["ids_reused"]
             if any(im["unrecorded"]) or any(im["no_inverse"]):
@@ -728,7 +910,7 @@ def run(tier: str, seed: int, replay=None) -> int:
 
 def _worker():
     cases = json.loads(sys.stdin.read())
-    runners = {"churn": run_churn, "clone": run_clone, "ctor_alias": run_ctor_alias, "container_eq": run_container_eq, "setitem_grown": run_setitem_grown}
+    runners = {"quirk": run_quirk, "trans": run_trans, "churn": run_churn, "clone": run_clone, "ctor_alias": run_ctor_alias, "container_eq": run_container_eq, "setitem_grown": run_setitem_grown}
     out = [runners.get(c.get("kind"), run_impl)(c) for c in cases]
     sys.stdout.write(json.dumps(out))
 
